@@ -120,6 +120,14 @@ def cases_for(name, tier):
         for pi in (pis if not big or tier == "thorough" else [pi1]):
             for ex in ("eigen", "checked", "pade", "either"):
                 out.append({"params": pv, "pi": pi, "config": "expm", "expm": ex})
+    if D.spec_is_directed_nuc(name, terms):
+        # nearly defective generators inside the bounds (a one-way chain of equal large rates, the rest on the lower bound),
+        # under every exponentiation setting: "checked" must refuse or be right, "either" must fall back
+        chain = {"T>C", "C>A", "A>G"}
+        for big_rate in (1e3, 1e6):
+            pv = {t: (big_rate if t in chain else 1e-6) for t in terms}
+            for ex in ("checked", "pade", "either"):
+                out.append({"params": pv, "pi": pis[0], "config": "expm", "expm": ex})
     if terms:
         for pi in pis:
             out.append({"params": base, "pi": pi, "config": "per-edge"})
@@ -158,6 +166,7 @@ def shards(tier, seed):
     out.append({"model": "BH", "discrete": True, "tier": tier})
     out.append({"model": "DT", "discrete": True, "tier": tier})
     out.append({"model": "reversible-refusal", "refusals": True, "tier": tier})
+    out.append({"model": "GS", "gs": True, "tier": tier})
     return out
 
 
@@ -531,7 +540,73 @@ def check_reversible_refusals(acc, report=True):
     return fails
 
 
+def check_general_stationary(acc, report=True):
+    """GeneralStationary derives some exchangeabilities from the others so that the given motif probabilities are
+    stationary; for parameter vectors it cannot balance it refuses (ParameterOutOfBoundsError).  No oracle for the values
+    is needed: whatever it accepts must be a calibrated generator under which pi is stationary, for Q and for P(t)."""
+    from cogent3 import DNA, make_aligned_seqs, make_tree
+    from cogent3.evolve.ns_substitution_model import GeneralStationary
+
+    fails = []
+    sm = GeneralStationary(DNA.alphabet, recode_gaps=True)
+    pars = list(sm.get_param_list())
+    aln = make_aligned_seqs({"a": "ACGTAC", "b": "ACGAAC", "c": "ATGTAG"}, moltype="dna")
+    pis = [{"T": 0.25, "C": 0.25, "A": 0.25, "G": 0.25}, {"T": 0.1, "C": 0.2, "A": 0.3, "G": 0.4}]
+    vectors = [{q: 1.0 for q in pars}]
+    for pname in pars:
+        for v in (1e-6, 0.05, 3.0, 20.0, 1e6):
+            vectors.append({q: (v if q == pname else 1.0) for q in pars})
+    for p1, p2 in itertools.combinations(pars, 2):
+        vectors.append({q: (5.0 if q == p1 else 0.2 if q == p2 else 1.0) for q in pars})
+    for pi in pis:
+        for vec in vectors:
+            case = {"model": "GS", "pi": pi, "params": vec}
+            acc.case(case)
+            try:
+                lf = sm.make_likelihood_function(make_tree("(a:0.1,b:0.7,c:2.5)"))
+                lf.set_motif_probs(dict(pi))
+                lf.set_alignment(aln)
+                with lf.updates_postponed():
+                    for q, v in vec.items():
+                        lf.set_param_rule(q, value=float(v), is_constant=True)
+                Q = numpy.asarray(lf.get_rate_matrix_for_edge("a", calibrated=True).array, float)
+                P = numpy.asarray(lf.get_psub_for_edge("b").array, float)
+                w = numpy.asarray(lf.get_motif_probs().array, float)
+            except Exception as e:  # noqa: BLE001
+                if type(e).__name__ in ("ParameterOutOfBoundsError",):
+                    acc.outcome(("GS", "refused"))
+                    continue
+                sig = f"GeneralStationary: raised {type(e).__name__}"
+                fails.append((sig, {"error": str(e)[:200]}))
+                if report:
+                    acc.fail(sig, case, {"error": str(e)[:200]})
+                continue
+            acc.outcome(("GS", "accepted"))
+            probs = []
+            if (Q - numpy.diag(numpy.diag(Q)) < -1e-12).any():
+                probs.append(("a negative off-diagonal rate", float((Q - numpy.diag(numpy.diag(Q))).min())))
+            if abs(Q.sum(axis=1)).max() > 1e-9:
+                probs.append(("rows of Q do not sum to zero", float(abs(Q.sum(axis=1)).max())))
+            if abs(float(-(w * numpy.diag(Q)).sum()) - 1) > 1e-9:
+                probs.append(("Q is not calibrated", float(-(w * numpy.diag(Q)).sum())))
+            if abs(w @ Q).max() > 1e-9:
+                probs.append(("pi Q != 0: the motif probabilities are not stationary", float(abs(w @ Q).max())))
+            if abs(w @ P - w).max() > 1e-8:
+                probs.append(("pi P(t) != pi", float(abs(w @ P - w).max())))
+            for what, val in probs:
+                sig = f"GeneralStationary accepted a parameter vector: {what}"
+                if sig not in [f[0] for f in fails]:
+                    fails.append((sig, {"value": val}))
+                if report:
+                    acc.fail(sig, case, {"value": val})
+    acc.sample({"model": "GeneralStationary", "vectors": len(vectors), "motif prob choices": len(pis)}, "GS")
+    return fails
+
+
 def run_shard(spec, acc):
+    if spec.get("gs"):
+        check_general_stationary(acc)
+        return
     if spec.get("refusals"):
         check_reversible_refusals(acc)
         return
@@ -554,6 +629,8 @@ def replay(case):
     name = case.pop("model")
     if name == "reversible-refusal":
         return check_reversible_refusals(Acc(), report=False)
+    if name == "GS":
+        return check_general_stationary(Acc(), report=False)
     if case.get("discrete"):
         return check_discrete(name, Acc(), report=False)
     return check_case(name, case, Acc(), report=False)
